@@ -38,6 +38,12 @@ type dirBox struct {
 	failAt, calls_ int
 	failReal       bool // the fault is a genuine file-system failure inside the real handler, not an error of the wrapper
 	Misuse         string
+	deferMID       map[string]bool // proposals the station's operator puts off in this session
+}
+
+// reset forgets what was recorded and injected for the last session (the real handler stays).
+func (b *dirBox) reset() {
+	b.calls, b.calls_, b.failAt, b.failReal, b.Misuse, b.deferMID = nil, 0, 0, false, "", nil
 }
 
 var c02DirSeq atomic.Int64
@@ -143,6 +149,9 @@ func (b *dirBox) ProcessInbound(msgs ...*fbb.Message) error {
 
 func (b *dirBox) GetInboundAnswer(p fbb.Proposal) fbb.ProposalAnswer {
 	a := b.h.GetInboundAnswer(p)
+	if a == fbb.Accept && b.deferMID[p.MID()] {
+		a = fbb.Defer
+	}
 	b.calls = append(b.calls, sess.Call{Op: "GetInboundAnswer", MID: p.MID(), Ans: byte(a)})
 	return a
 }
